@@ -525,6 +525,15 @@ func condFact(cond ssa.Value) (ssa.Value, bool) {
 			return v, t
 		}
 	}
+	// v, ok := x.(I) where every value of x's static type implements I: ok iff x is non-nil
+	if ex, isEx := c.(*ssa.Extract); isEx && ex.Index == 1 {
+		if ta, isTA := ex.Tuple.(*ssa.TypeAssert); isTA && ta.CommaOk {
+			if it, isI := ta.AssertedType.Underlying().(*types.Interface); isI && types.Implements(ta.X.Type(), it) {
+				// fact(x) = "x is nil"; cond (ok) true iff !nil
+				return ta.X, neg
+			}
+		}
+	}
 	return c, !neg
 }
 
